@@ -21,6 +21,7 @@ import (
 	"os"
 	"os/exec"
 	"runtime"
+	"runtime/debug"
 	"sort"
 	"strconv"
 	"strings"
@@ -171,6 +172,9 @@ func safeExec(f opFunc, args []string) (i, o, k string) {
 	defer func() {
 		if r := recover(); r != nil {
 			s := fmt.Sprint(r)
+			if os.Getenv("VH_TRACE") != "" {
+				fmt.Fprintf(os.Stderr, "PANIC %s\n%s\n", s, debug.Stack())
+			}
 			if len(s) > 60 {
 				s = s[:60]
 			}
